@@ -187,12 +187,39 @@ pub fn log_digest(env_root: &Path, out: &Outcome) -> u64 {
 
 pub fn log_text(env_root: &Path, out: &Outcome) -> String {
     let root = env_root.to_string_lossy().to_string();
-    let norm = |b: &[u8]| String::from_utf8_lossy(b).replace(&root, "{ROOT}");
     let mut s = String::new();
     s.push_str(&out.trace_raw);
     s.push_str(&format!("exit={:?} sig={:?}\n", out.exit, out.signal));
-    s.push_str(&norm(&out.stdout));
+    s.push_str(&strip_root(&out.stdout, &root));
     s.push_str("\n--\n");
-    s.push_str(&norm(&out.stderr));
+    s.push_str(&strip_root(&out.stderr, &root));
     s
+}
+
+/// Replaces every occurrence of the world root - also one cut short by a failed or short write
+/// in the middle of a path - by a placeholder, so that logs do not depend on the worker
+/// directory or the pid.
+pub fn strip_root(bytes: &[u8], root: &str) -> String {
+    let r = root.as_bytes();
+    let mut out: Vec<u8> = Vec::with_capacity(bytes.len());
+    let mut i = 0;
+    while i < bytes.len() {
+        let mut m = 0;
+        while m < r.len() && i + m < bytes.len() && bytes[i + m] == r[m] {
+            m += 1;
+        }
+        // "/dev/shm/typ" = 12 bytes: long enough not to match ordinary text
+        if m >= r.len().min(12) {
+            if m == r.len() {
+                out.extend_from_slice(b"{ROOT}");
+            } else {
+                out.extend_from_slice(format!("{{ROOT:{}}}", m).as_bytes());
+            }
+            i += m;
+        } else {
+            out.push(bytes[i]);
+            i += 1;
+        }
+    }
+    String::from_utf8_lossy(&out).to_string()
 }
